@@ -350,7 +350,7 @@ func (w *World) observe(st *Step) {
 	if st.Msgs != nil {
 		tx := &TxCtx{Faults: map[int]bool{}}
 		for _, f := range st.Op.Fault {
-			tx.Faults[f] = true
+			tx.Faults[f%chain.PanicFaultBase] = true // (a call that panics fails just as one that returns an error)
 		}
 		sim := w.Model.Clone()
 		comb := &Expect{V: MustSucceed}
